@@ -630,6 +630,68 @@ pub fn transform(kind: &str, name: &str, src: &str) -> String {
     }
 }
 
+
+// ---------------------------------------------------------------------------------------------
+// tier 3: synthetic constructs whose canonical one-line rendering sits on the max_width boundary
+
+#[derive(Clone, Debug)]
+pub struct WidthCase {
+    pub kind: u8,
+    pub n: u8,
+    /// canonical width of the line minus max_width (-5 ..= 5)
+    pub delta: i8,
+    /// source spacing: 0 compact (no blank after separators), 1 canonical, 2 padded, 3 one item per line
+    pub style: u8,
+}
+fn width_strategy() -> impl Strategy<Value = WidthCase> {
+    (0u8..WIDTH_KINDS.len() as u8, 2u8..9, -5i8..=5, 0u8..4).prop_map(|(kind, n, delta, style)| WidthCase { kind, n, delta, style })
+}
+pub const WIDTH_KINDS: &[&str] = &["use-group", "call-args", "array", "struct-literal", "tuple", "fn-signature"];
+/// Source text for a width case (default config: max_width 100). The construct is written so that its canonical
+/// single-line form is exactly `100 + delta` columns wide; `style` only changes the spacing of the source.
+pub fn render_width(c: &WidthCase) -> String {
+    let target = (100 + c.delta as i32) as usize;
+    let n = c.n as usize;
+    let (sep_c, sep_src): (&str, String) = (", ", match c.style { 0 => ",".into(), 1 => ", ".into(), 2 => " ,  ".into(), _ => ",\n        ".into() });
+    // canonical line as a function of the item names
+    let build = |items: &[String], sep: &str| -> (String, String) {
+        let body = items.join(sep);
+        match WIDTH_KINDS[c.kind as usize] {
+            "use-group" => (String::new(), format!("use some_library::module::{{{body}}};")),
+            "call-args" => ("    ".into(), format!("let result_value = callee_function({body});")),
+            "array" => ("    ".into(), format!("let array_value = [{body}];")),
+            "struct-literal" => ("    ".into(), format!("let struct_value = Data {{ {} }};", items.iter().map(|i| format!("{i}: {i}")).collect::<Vec<_>>().join(sep))),
+            "tuple" => ("    ".into(), format!("let tuple_value = ({body});")),
+            _ => (String::new(), format!("fn function_name({}) -> u64 {{", items.iter().map(|i| format!("{i}: u64")).collect::<Vec<_>>().join(sep))),
+        }
+    };
+    let mut items: Vec<String> = (0..n).map(|i| format!("item{}", (b'a' + i as u8) as char)).collect();
+    // pad the last item until the canonical line has the target width
+    loop {
+        let (ind, line) = build(&items, sep_c);
+        let w = ind.len() + line.len();
+        if w >= target {
+            break;
+        }
+        let last = items.last_mut().unwrap();
+        last.push('x');
+    }
+    let (ind, line) = build(&items, &sep_src);
+    match WIDTH_KINDS[c.kind as usize] {
+        "use-group" => format!("library;\n\n{line}\n\nfn f() -> u64 {{\n    0\n}}\n"),
+        "fn-signature" => format!("library;\n\n{line}\n    0\n}}\n"),
+        "struct-literal" => {
+            let fields = items.iter().map(|i| format!("    {i}: u64,\n")).collect::<String>();
+            let lets = items.iter().map(|i| format!("    let {i} = 1;\n")).collect::<String>();
+            format!("library;\n\nstruct Data {{\n{fields}}}\n\nfn f() {{\n{lets}{ind}{line}\n}}\n")
+        }
+        _ => {
+            let lets = items.iter().map(|i| format!("    let {i} = 1;\n")).collect::<String>();
+            format!("library;\n\nfn f() {{\n{lets}{ind}{line}\n}}\n")
+        }
+    }
+}
+
 pub fn run(ctx: &Ctx) {
     let prop = ctx.prop.clone();
     let corpus = Corpus::load();
@@ -809,6 +871,40 @@ pub fn run(ctx: &Ctx) {
             },
         }
     });
+    // tier 3: width-boundary constructs (the domain is small: enumerated in full, not sampled)
+    {
+        let skip: Vec<String> = kf.known_for(&prop).iter().filter_map(|e| e.signature.strip_prefix("width-boundary:").map(|s| s.to_string())).collect();
+        for kind in 0..WIDTH_KINDS.len() as u8 {
+            for n in 2u8..9 {
+                for delta in -5i8..=5 {
+                    for style in 0u8..4 {
+                        let c = WidthCase { kind, n, delta, style };
+                        let text = render_width(&c);
+                        rep.eval();
+                        rep.class(&format!("t3:{}", WIDTH_KINDS[kind as usize]));
+                        match check(&prop, &cfg, &text) {
+                            Ok(o) => {
+                                if o.accepted && o.changed {
+                                    rep.nontrivial(hash64(format!("t3{:?}", c).as_bytes()));
+                                }
+                                if !o.accepted {
+                                    rep.class("t3_not_accepted");
+                                }
+                            }
+                            Err((sig, summary)) => {
+                                let sig = format!("width-boundary:{}:{}", WIDTH_KINDS[kind as usize], sig.split('|').next().unwrap_or(&sig));
+                                if discover {
+                                    println!("DISCOVERED-T3\t{sig}\t{:?}", c);
+                                }
+                                let _ = &skip;
+                                rep.violation(Violation { signature: sig, summary: format!("{:?}: {summary}", c), replay: json!({"origin": format!("synthetic {:?}", c), "cfg": cfg.to_json(), "text": text}) });
+                            }
+                        }
+                    }
+                }
+            }
+        }
+    }
     let seen = seen_known.into_inner().unwrap();
     rep.set_extra("known_coarse_class_hits", json!(seen.iter().map(|(k, v)| (k.clone(), v.0)).collect::<std::collections::BTreeMap<_, _>>()));
     for (sig, (n, case)) in &seen {
